@@ -85,8 +85,13 @@ fn drive<RK: RadioKind>(rk: &mut RK, bus: &Bus, sfi: usize, bwi: usize, cri: usi
                 }
                 c.clear_decoded();
             }
+            // LoRa::init(): reset, ensure_ready(Sleep), set_standby, then the cold start
             let _ = block_on(rk.reset(&mut NoDelay));
+            let _ = block_on(rk.ensure_ready(lora_phy::mod_params::RadioMode::Sleep));
+            let _ = block_on(rk.set_standby());
             let _ = block_on(rk.init_lora(0x3444));
+            let _ = block_on(rk.set_tx_power_and_ramp_time(0, None, false));
+            let _ = block_on(rk.set_irq_params(Some(lora_phy::mod_params::RadioMode::Standby)));
         });
     }
     let r = trap(|| rk.create_modulation_params(SFS[sfi], BWS[bwi], CRS[cri], freq));
@@ -108,7 +113,14 @@ fn drive<RK: RadioKind>(rk: &mut RK, bus: &Bus, sfi: usize, bwi: usize, cri: usi
                 let r = trap(|| {
                     let pp = rk.create_packet_params(pkt.0, pkt.1, pkt.2, pkt.3, pkt.4, &mp)?;
                     block_on(rk.set_packet_params(&pp))?;
-                    block_on(rk.set_channel(freq))
+                    block_on(rk.set_channel(freq))?;
+                    // ... and the operation itself is started (start_rx / tx): the chip then runs with
+                    // whatever is in its registers at that moment
+                    if pkt.4 {
+                        block_on(rk.do_rx(if pkt.1 { lora_phy::RxMode::Continuous } else { lora_phy::RxMode::Single(pkt.0.max(1)) }))
+                    } else {
+                        block_on(rk.do_tx())
+                    }
                 });
                 match r {
                     Ok(Ok(())) => decode(&bus.chip()),
@@ -249,12 +261,12 @@ impl Monitor for C15 {
                                 drive(&mut rk, &bus, sfi, bwi, cri, freq, dec_sx126x, pkt, prior)
                             }
                             4 => {
-                                let (mut rk, bus) = new_sx1272(false);
+                                let (mut rk, bus) = new_sx1272_rx(rng.bool(), rng.bool());
                                 randomise_regs(&bus, rng);
                                 drive(&mut rk, &bus, sfi, bwi, cri, freq, dec_sx1272, pkt, prior)
                             }
                             5 => {
-                                let (mut rk, bus) = new_sx1276(false);
+                                let (mut rk, bus) = new_sx1276_rx(rng.bool(), rng.bool());
                                 randomise_regs(&bus, rng);
                                 drive(&mut rk, &bus, sfi, bwi, cri, freq, dec_sx1276, pkt, prior)
                             }
@@ -293,7 +305,7 @@ impl Monitor for C15 {
                                 col.eval_n(1);
                                 col.event(&format!("after_packet_params:{}", name));
                                 if a != decided {
-                                    viol(col, &format!("C15|after-packet-params|{}|decided={} left={}|{}", name, onoff(decided), onoff(a), cc), "the LDRO setting no longer matches the decision after the packet parameters and channel were programmed (the prepare flow's next steps)", || {
+                                    viol(col, &format!("C15|after-packet-params|{}|decided={} left={}|{}", name, onoff(decided), onoff(a), cc), "the LDRO setting no longer matches the decision after the packet parameters and channel were programmed and the reception or transmission was started (the rest of the prepare / start flow)", || {
                                         json!({"input": input, "decided_raw": d, "left_on_chip": a, "packet_params": {"preamble": pkt.0, "implicit": pkt.1, "len": pkt.2, "crc": pkt.3, "iq_inverted": pkt.4}})
                                     });
                                 }
